@@ -157,6 +157,14 @@ public:
 
   void add_energy(cvm::real e) override { bias_energy += e; energies_added.push_back(e); }
 
+  // scripted-forces callback (scriptedColvarForces on): unset => same answer as the base class
+  std::function<int()> force_callback;
+  int run_force_callback() override
+  {
+    if (force_callback) return force_callback();
+    return COLVARS_NOT_IMPLEMENTED;
+  }
+
   int check_atom_id(int atom_number) override
   {
     int aid = atom_number - 1;
